@@ -327,6 +327,21 @@ def finish(ctx, level, oracle_fails, technique_note=''):
         ev['coverage']['known_findings_reproduced'] = [k.get('what') for k, _ in seen_known.values()]
     if ctx.broken:
         ev['coverage']['broken'] = ctx.broken
+    # keep the evidence schema-valid: typed keys
+    c = ev['coverage']
+    if 'exhaustive' in c and not isinstance(c['exhaustive'], bool):
+        c['exhaustive_scope'] = str(c['exhaustive']); c['exhaustive'] = False
+    for k in ('evaluations', 'distinct_nontrivial', 'obligations', 'discharged', 'states', 'transitions',
+              'traces_validated_against_impl', 'programs', 'disagreements_checked'):
+        if k in c and not isinstance(c[k], int):
+            try:
+                c[k] = int(c[k])
+            except Exception:
+                c[k + '_note'] = str(c.pop(k))
+    if not isinstance(c.get('samples', []), list):
+        c['samples'] = [c['samples']]
+    if not c.get('samples'):
+        c['samples'] = [{'note': 'no sample recorded by this run'}]
     os.makedirs(os.path.join(ROOT, 'evidence'), exist_ok=True)
     json.dump(ev, open(os.path.join(ROOT, 'evidence', ctx.prop + '.json'), 'w'), indent=1)
     for l in lines:
